@@ -10,6 +10,7 @@ GivRandom can return), all destinations and arbitrarily long call lists.
 import GivaroModel.Props.C20
 import GivaroModel.Model.RandomRings
 import GivaroModel.Lemmas.MontgomeryLemmas
+import GivaroModel.Lemmas.RationalLemmas
 namespace Givaro.Props.C20Rings
 open Givaro Givaro.Model.Random Givaro.Model.RandomRings Givaro.Spec.Random Givaro.Lemmas.Random Givaro.Props.C20
 
@@ -390,6 +391,108 @@ theorem ext_random_terminates (p e : Int) (hp : 2 ≤ p) (hfit : p ≤ 214748364
   refine ⟨fuel, ?_⟩
   unfold extRandomD
   rw [polyRandomD_eq]; exact hf
+
+/-! ### QField<Rational> -/
+
+section QF
+open Givaro.Model.Rational Givaro.Lemmas.Rational
+
+/-- `Rational(n, d)` with a positive `d` is canonical (positive denominator, lowest terms) and zero only if `n` is -/
+theorem mk3_pos_canon (n d : Int) (hd : 0 < d) (q : QRep) (h : mk3 n d 1 = some q) : Canon q ∧ (n ≠ 0 → q.num ≠ 0) := by
+  unfold mk3 at h
+  rw [if_neg (by omega)] at h
+  have hs : isign d > 0 := by unfold isign; rw [if_neg (by omega), if_neg (by omega)]; decide
+  simp only [hs, ↓reduceIte, Option.some.injEq] at h
+  subst h
+  obtain ⟨hc, hD⟩ := reduce_spec ⟨n, d⟩ hd
+  refine ⟨hc, fun hn hq => ?_⟩
+  unfold Den at hD
+  rw [hq] at hD
+  simp only [Int.zero_mul] at hD
+  rcases Int.mul_eq_zero.mp hD.symm with h0 | h0
+  · exact hn h0
+  · have := hc.1; omega
+
+variable {σ : Type} (G : RawGen σ) (hG : G.Lawful)
+include hG
+
+/-- **every `QField<Rational>::random` / `nonzerorandom` form returns a canonical rational** (positive denominator, numerator and
+    denominator coprime), non-zero for the non-zero forms — for every raw generator satisfying GMP's contract, every size `s`,
+    every bound `b` with positive numerator, and whatever `r` held -/
+theorem qf_random_canonical (kind : Nat) (a b : Int) (hb : 2 ≤ kind → 0 < (qfBound a b).num ∧ 0 < (qfBound a b).den)
+    (fuel : Nat) (old : QRep) (st : σ) (r : QRep × σ) (h : qfRandomD G kind a b fuel old st = some r) :
+    Canon r.1 ∧ ((kind = 1 ∨ kind = 3) → r.1.num ≠ 0) := by
+  have posW : ∀ (n f : Nat) (s : σ) (d : Int × σ), nonzeroWD G true n f 0 s = some d → 0 < d.1 := by
+    intro n f s d hd
+    rw [nonzeroWD_eq] at hd
+    have := nonzero_ne_zero G hG true n f s d hd
+    unfold nonzeroOk ltOk at this
+    simp only [↓reduceIte, Bool.and_eq_true, decide_eq_true_eq] at this
+    omega
+  have posI : ∀ (m : Int) (f : Nat) (s : σ) (d : Int × σ), 0 < m → nonzeroID G true m f 0 s = some d → 0 < d.1 := by
+    intro m f s d hm hd
+    rw [nonzeroID_eq] at hd
+    have := nonzero_integer_ne_zero G hG true m hm f s d hd
+    unfold nonzeroOk ltOk at this
+    simp only [↓reduceIte, Bool.and_eq_true, decide_eq_true_eq] at this
+    omega
+  have fin : ∀ (n d : Int) (s : σ), 0 < d → (mk3 n d 1).map (fun q => (overwrite old q, s)) = some r → Canon r.1 ∧ (n ≠ 0 → r.1.num ≠ 0) := by
+    intro n d s hd hm
+    cases hq : mk3 n d 1 with
+    | none => rw [hq] at hm; simp at hm
+    | some q =>
+      rw [hq] at hm
+      simp only [Option.map_some, Option.some.injEq] at hm
+      subst hm
+      exact mk3_pos_canon n d hd q hq
+  unfold qfRandomD at h
+  split at h
+  · split at h
+    · simp at h
+    · rename_i d hd
+      have := fin _ _ _ (posW _ _ _ _ hd) h
+      exact ⟨this.1, by omega⟩
+  · split at h
+    · simp at h
+    · rename_i d hd
+      split at h
+      · simp at h
+      · rename_i n hn
+        have := fin _ _ _ (posW _ _ _ _ hd) h
+        have hnp := posW _ _ _ _ hn
+        exact ⟨this.1, fun _ => this.2 (by omega)⟩
+  · have hbb := hb (by omega)
+    split at h
+    · simp at h
+    · rename_i d hd
+      have := fin _ _ _ (posI _ _ _ _ hbb.2 hd) h
+      exact ⟨this.1, by omega⟩
+  · have hbb := hb (by omega)
+    split at h
+    · simp at h
+    · rename_i n hn
+      split at h
+      · simp at h
+      · rename_i d hd
+        have := fin _ _ _ (posI _ _ _ _ hbb.2 hd) h
+        have hnp := posI _ _ _ _ hbb.1 hn
+        exact ⟨this.1, fun _ => this.2 (by omega)⟩
+  · simp at h
+
+omit hG in
+/-- the rational returned and the generator state left behind do not depend on what `r` held -/
+theorem qf_random_dest_indep (kind : Nat) (a b : Int) (fuel : Nat) (old old' : QRep) (st : σ) :
+    qfRandomD G kind a b fuel old st = qfRandomD G kind a b fuel old' st := by
+  unfold qfRandomD
+  simp only [overwrite]
+
+end QF
+
+example : (qfRandomD constGen 1 5 1 4 ⟨7, 3⟩ ()).isSome = true := by decide
+example : ∀ r, qfRandomD constGen 1 5 1 4 ⟨7, 3⟩ () = some r →
+    Givaro.Lemmas.Rational.Canon r.1 ∧ ((1 = 1 ∨ 1 = 3) → r.1.num ≠ 0) :=
+  fun r h => qf_random_canonical constGen constGen_lawful 1 5 1 (by decide) 4 _ () r h
+example : Givaro.Model.Rational.mk3 6 4 1 = some ⟨3, 2⟩ := by decide
 
 /-! ### copies of GIV_randIter -/
 
